@@ -328,6 +328,22 @@ func checkHier(c hierCase, o *kit.Obs) error {
 			return fmt.Errorf("FullMesh() of a root differs from the faces of its subtree: %v", err)
 		}
 	}
+	// FullMesh is a query: afterwards every node still holds exactly its own component
+	for i := range cs {
+		for h, ci := range nodeComp {
+			if ci != i {
+				continue
+			}
+			if err := sameFaces(m3.Tris(h.Mesh), cs[ci].Faces); err != nil {
+				return fmt.Errorf("after FullMesh() a hierarchy node no longer holds exactly its own component: %v", err)
+			}
+			if fm := m3.Tris(h.FullMesh()); len(h.Children) == 0 {
+				if err := sameFaces(fm, cs[ci].Faces); err != nil {
+					return fmt.Errorf("FullMesh() of a leaf differs from its component: %v", err)
+				}
+			}
+		}
+	}
 
 	// ---- Contains = parity of the number of enclosing components of the root's subtree
 	oriented := make([][]kit.Tri, len(cs))
@@ -728,6 +744,22 @@ func checkHier2(c hier2Case, o *kit.Obs) error {
 		}
 		if err := sameSegs(m3.Segs(h.FullMesh()), want); err != nil {
 			return fmt.Errorf("2D FullMesh() of a root differs from the segments of its subtree: %v", err)
+		}
+	}
+	// FullMesh is a query: afterwards every node still holds exactly its own loop
+	for i := range cs {
+		for h, ci := range nodeComp {
+			if ci != i {
+				continue
+			}
+			if err := sameSegs(m3.Segs(h.Mesh), cs[ci].Segs); err != nil {
+				return fmt.Errorf("after 2D FullMesh() a hierarchy node no longer holds exactly its own loop: %v", err)
+			}
+			if fm := m3.Segs(h.FullMesh()); len(h.Children) == 0 {
+				if err := sameSegs(fm, cs[ci].Segs); err != nil {
+					return fmt.Errorf("2D FullMesh() of a leaf differs from its loop: %v", err)
+				}
+			}
 		}
 	}
 	var pts []kit.V2
